@@ -320,6 +320,18 @@ def events(ctx):
     f = dict(c.argvals[1][2])
     x = f.get('dist_to_next')
     mv = ('obj', b.params[1][0]); lp = ('obj', b.params[2][0])
+    # one recorded step can pass several boundaries (a link as long as the train: front and tail cross together): ALL events whose
+    # position the step has reached are emitted in that step — the push sits in an inner loop that repeats while the next event
+    # position is not beyond the state reached, inside the loop over the recorded states
+    cfg_ = inventory(ctx).cfg(b)
+    depth = sum(1 for h, body in cfg_.loops.items() if c.block in body)
+    conds = [cnd for cnd, o in c.pc if cnd[0] == 'le' and o != '0' and cnd[1][0] == 'loopvar' and cnd[2][0] == 'pre' and cnd[2][1][0] == mv and cnd[2][1][-1] == ('f', 'offset')]
+    inner_ok = False
+    for cnd in conds:
+        H_ = cnd[1][1]
+        inner_ok = inner_ok or (H_ in cfg_.loops and c.block in cfg_.loops[H_] and bool(an.loop_back.get(H_)))
+    ctx.check(depth >= 2 and inner_ok, R, 'update_est_times_add|all events of a step', 'events are emitted in a loop that repeats while the next event position has been reached (nested in the loop over the states)',
+              'the event push is nested in %d loop(s); repeat conditions on a loop-carried next position: %d' % (depth, len(conds)), w)
     # the two movement states: i and i − 1
     cur = None
     for y in walk(f.get('speed', ('unit',))):
